@@ -263,7 +263,8 @@ CutBefore(a) == LET cs == {c \in a.cuts : c <= a.out} IN
 StepData(a, z, p) ==
   LET av == AvailBits(z, a.pos)
       d == Decode(a.tl, Peek(z, a.pos, 15))
-  IN IF d.len = 0 THEN (IF av >= 15 THEN Rej(a, "lit_badcode") ELSE Starve(a))
+  \* (a code without any code word can never match, however many bits follow)
+  IN IF d.len = 0 THEN (IF av >= 15 \/ a.tl.maxlen = 0 THEN Rej(a, "lit_badcode") ELSE Starve(a))
      ELSE IF d.len > av THEN Starve(a)
      ELSE LET pos1 == a.pos + d.len IN
        IF d.sym < 256 THEN
@@ -283,7 +284,7 @@ StepData(a, z, p) ==
                  pos2 == pos1 + le
                  av2 == av - d.len - le
                  dd == Decode(a.td, Peek(z, pos2, 15))
-             IN IF dd.len = 0 THEN (IF av2 >= 15 THEN Rej(a, "dist_badcode") ELSE Starve(a))
+             IN IF dd.len = 0 THEN (IF av2 >= 15 \/ a.td.maxlen = 0 THEN Rej(a, "dist_badcode") ELSE Starve(a))
                 ELSE IF dd.len > av2 THEN Starve(a)
                 ELSE IF dd.sym > 29 THEN Rej(a, "dist_symbol")
                 ELSE
